@@ -109,6 +109,11 @@ template<int OP, int ORD, typename T> constexpr u64 W_mix(i64 a, T t)
   else if constexpr (ORD==1) { if constexpr (OP==0) return tb(t + x); else if constexpr (OP==1) return tb(t - x); else if constexpr (OP==2) return tb(t * x); else return tb(t / x); }
   else { if constexpr (OP==0) x += t; else if constexpr (OP==1) x -= t; else if constexpr (OP==2) x *= t; else x /= t; return tb(x); }
   }
+template<int = 0> constexpr i64 W_angle_aprox(int cosine, std::int32_t d) { return cosine ? cos_angle_aprox(d).v : sin_angle_aprox(d).v; }
+template<int = 0> constexpr i64 W_sqrt_aprox(i64 a) { return sqrt_aprox(fx(a)).v; }
+template<int = 0> constexpr i64 W_atan_index_aprox(i64 a) { return atan_index_aprox(fx(a)).v; }
+template<int = 0> constexpr i64 W_atan_aprox(i64 a) { return atan_aprox(fx(a)).v; }
+template<int = 0> constexpr i64 W_hypot_aprox(i64 a, i64 b) { return hypot_aprox(fx(a), fx(b)).v; }
 template<typename T> constexpr i64 W_a2r(T d) { return angle_to_radians(d).v; }
 template<int FN, typename T> constexpr i64 W_xangle(T d) { if constexpr (FN==0) return sin_angle(d).v; else if constexpr (FN==1) return cos_angle(d).v; else return tan_angle(d).v; }
 '''
@@ -127,9 +132,10 @@ PRELUDE_LINES = PRELUDE.count("\n")
 def _ename(x): return x.replace(' ', '_')
 
 class Case:
-    __slots__ = ("entry", "expr", "rt", "sqrt_dep", "dbl", "desc", "res32")
-    def __init__(self, entry, expr, rt, desc, sqrt_dep=False, dbl=False, res32=False):
+    __slots__ = ("entry", "expr", "rt", "sqrt_dep", "dbl", "desc", "res32", "optional")
+    def __init__(self, entry, expr, rt, desc, sqrt_dep=False, dbl=False, res32=False, optional=False):
         self.entry, self.expr, self.rt, self.desc, self.sqrt_dep, self.dbl, self.res32 = _ename(entry), expr, rt, desc, sqrt_dep, dbl, res32
+        self.optional = optional      # not constexpr by design: a rejection is not a finding, but an accepted value must equal the run-time value
 
 def s_set(w, r, with_nan=True):
     """The same S(w,r) alphabet as the explorer (without the anchors that are irrelevant here) plus a few anchors."""
@@ -165,13 +171,68 @@ def type_values(t, thorough):
             vals |= {v + d for v in list(vals) for d in (-1, 1)}
         return sorted({v & ((1 << w) - 1) for v in vals})
     if t == 8:
-        fs = [0.0, -0.0, 1.0, -1.0, 0.5, 0.25, 1.5, -2.75, 1e-3, 3.14159274, 90.0, 360.0, 65535.99, 2147483520.0, 2147483648.0, -2147483648.0, 1e10, -1e20, 1e-30, float("inf"), float("-inf"), float("nan"), 1.401298464324817e-45, 16777216.0, 8388607.5]
+        fs = [t / 131072.0 for t in (1, -1, 3, -3, 5, -5, 2001, -2001)] + [0.75 / 65536, -0.75 / 65536, 0.25 / 65536, -0.25 / 65536, -0.5, -128.5, 255.99609375, -32767.5] + \
+             [0.0, -0.0, 1.0, -1.0, 0.5, 0.25, 1.5, -2.75, 1e-3, 3.14159274, 90.0, 360.0, 65535.99, 2147483520.0, 2147483648.0, -2147483648.0, 1e10, -1e20, 1e-30, float("inf"), float("-inf"), float("nan"), 1.401298464324817e-45, 16777216.0, 8388607.5]
         return sorted({struct.unpack("<I", struct.pack("<f", f))[0] for f in fs})
-    ds = [0.0, -0.0, 1.0, -1.0, 0.5, 1.0 / 131072, 3.0 / 131072, 1.5, -2.75, 1e-3, math.pi, 2147483646.5, 2147483647.0, 2147483648.0, -2147483647.0, 1e10, -1e20, 1e300, 1e-300, 5e-324, float("inf"), float("-inf"), float("nan"), 0.49999999999999994, 32767.999992370605]
+    import sys
+    ties = []
+    for k in (0, 1, 2, 7, 1000, 1234, 2046, 1 << 20, (1 << 31) - 1, (1 << 32) - 1, (1 << 40) + 1):
+        for sgn in (1, -1):
+            t = sgn * (k + 0.5) / 65536.0
+            tb = struct.unpack("<Q", struct.pack("<d", t))[0]
+            ties += [struct.unpack("<d", struct.pack("<Q", tb + d))[0] for d in (-2, -1, 0, 1, 2) if 0 <= tb + d < (1 << 64)]
+    ds = ties + [0.75 / 65536, -0.75 / 65536, 0.25 / 65536, -0.25 / 65536, -0.6 / 65536, -0.5, 32767.999992370605, 32767.99999999999, -32768.0 + 2 ** -30] + \
+         [0.0, -0.0, 1.0, -1.0, 0.5, 1.0 / 131072, 3.0 / 131072, 1.5, -2.75, 1e-3, math.pi, 2147483646.5, 2147483647.0, 2147483648.0, -2147483647.0, 1e10, -1e20, 1e300, 1e-300, 5e-324, float("inf"), float("-inf"), float("nan"), 0.49999999999999994, 32767.999992370605]
     return sorted({struct.unpack("<Q", struct.pack("<d", d))[0] for d in ds})
 
-def gen_cases(tier, sqrt_available):
+def directed_mul_pairs():
+    """pairs whose raw product sits at the int64 limit or at the value limit, all sign combinations"""
+    out = []
+    for t in ((1 << 63) - 1, 1 << 63, FX_MAX * 65536):
+        for b in (3, 7, 6939105, 65536, 98304, 1329187385653, (1 << 31) + 1, 0x5555555555555555 >> 20):
+            q = t // b
+            for d in (-1, 0, 1):
+                for sa in (1, -1):
+                    for sb in (1, -1):
+                        a = sa * (q + d); bb = sb * b
+                        if -FX_MAX <= a <= FX_MAX:
+                            out.append((a, bb)); out.append((bb, a))
+    return sorted(set(out))
+
+def gen_cases(tier, sqrt_available, focus=None):
     th = tier == "thorough"
+    if focus == "C12":      # the complete domain of asin / acos in constant evaluation
+        if not sqrt_available:
+            return []
+        cases = []
+        for op, name in ((9, "asin"), (10, "acos")):
+            for a in range(-65536, 65537):
+                cases.append(Case(name, f"W_{name}({i64lit(a)})", ("un", op, a), f"{name}(raw {a})", sqrt_dep=True))
+        return cases
+    if focus == "C19":      # the compiled table functions: not constexpr by design; if a tree makes them constexpr the values must agree
+        cases = []
+        for cosine in (0, 1):
+            for d in list(range(-370, 731, 3)) + [65446, -65446, 1 << 20, -(1 << 20), 2147483647, -2147483647 - 1]:
+                lit = "(-2147483647-1)" if d == -(1 << 31) else str(d)
+                cases.append(Case("cos_angle_aprox" if cosine else "sin_angle_aprox", f"W_angle_aprox({cosine}, {lit})", ("angle_aprox", cosine, d), f"d={d}", optional=True))
+        for a in s_set(2, 1, with_nan=False):
+            if 0 <= a < (1 << 37):
+                cases.append(Case("sqrt_aprox", f"W_sqrt_aprox({i64lit(a)})", ("un", 14, a), f"raw {a}", optional=True))
+            if abs(a) < (1 << 47):
+                cases.append(Case("atan_index_aprox", f"W_atan_index_aprox({i64lit(a)})", ("un", 15, a), f"raw {a}", optional=True))
+        return cases
+    if focus == "C05":      # conversions only, denser floating values
+        cases = []
+        sm = small_set()
+        for t in (8, 9):
+            tv = type_values(t, True)
+            for how in range(3):
+                for b in tv:
+                    cases.append(Case(f"from_{TYPES[t]}", f"W_from<{how},{TYPES[t]}>({typed_lit(t, b)})", ("from_fp", how, t, b), f"how={how} {TYPES[t]} bits {b:#x}"))
+            for how in range(2):
+                for a in sm + s_set(2, 1, with_nan=False)[::3]:
+                    cases.append(Case(f"to_{TYPES[t]}", f"W_to<{how},{TYPES[t]}>({i64lit(a)})", ("to_fp", how, t, a), f"how={how} raw {a} -> {TYPES[t]}", dbl=(t == 9), res32=(t == 8)))
+        return cases
     cases = []
     su = s_set(3, 1) if th else s_set(2, 1)
     sb = s_set(1, 0) if th else small_set()
@@ -195,6 +256,13 @@ def gen_cases(tier, sqrt_available):
         for a in sb:
             for b in sb:
                 cases.append(Case(name, f"W_{name}({i64lit(a)}, {i64lit(b)})", ("bin", op, a, b), f"{name}(raw {a}, raw {b})", sqrt_dep=dep))
+    for (a, b) in directed_mul_pairs():
+        for op, name in ((2, "mul"), (6, "muleq")):
+            cases.append(Case(name, f"W_{name}({i64lit(a)}, {i64lit(b)})", ("bin", op, a, b), f"{name}(raw {a}, raw {b}) [directed]"))
+    for t in (3, 11):
+        for (a, b) in directed_mul_pairs()[::2]:
+            for order in range(3):
+                cases.append(Case(f"mixed*_{TYPES[t]}", f"W_mix<2,{order},{TYPES[t]}>({i64lit(a)}, {typed_lit(t, b & ((1 << 64) - 1))})", ("mixed", 2, t, order, a, b & ((1 << 64) - 1)), f"raw {a} * {TYPES[t]}({b}) order {order} [directed]"))
     for left in (0, 1):
         for a in sm:
             for r in (-(1 << 31), -1, 0, 1, 15, 16, 17, 31, 32, 47, 48, 62, 63):
@@ -240,6 +308,7 @@ class ShimRT:
         L.fm_mixed.restype = u64; L.fm_mixed.argtypes = [ci, ci, ci, i64, u64]
         L.fm_angle_to_radians.restype = i64; L.fm_angle_to_radians.argtypes = [ci, u64]
         L.fm_xangle.restype = i64; L.fm_xangle.argtypes = [ci, ci, u64]
+        L.fm_angle_aprox.restype = i64; L.fm_angle_aprox.argtypes = [ci, ctypes.c_int32]
         L.fm_probe_sqrt_algo.restype = ci
         L.fm_sqrt_constexpr_available.restype = ci
         self.L = L
@@ -260,6 +329,7 @@ class ShimRT:
         if k == "mixed": return L.fm_mixed(rt[1], rt[2], rt[3], s(rt[4]), rt[5])
         if k == "a2r": return L.fm_angle_to_radians(rt[1], rt[2]) & 0xffffffffffffffff
         if k == "xangle": return L.fm_xangle(rt[1], rt[2], rt[3]) & 0xffffffffffffffff
+        if k == "angle_aprox": return L.fm_angle_aprox(rt[1], rt[2]) & 0xffffffffffffffff
         raise ValueError(k)
 
 def is_dbl_special(bits):
@@ -324,7 +394,7 @@ def compile_chunk(compiler, std, algo, inc, lines, workdir, tag):
             return [None] * len(lines), rejected
     raise RuntimeError("constant-evaluation chunk still fails after removing rejected lines")
 
-def run_lane(tier, inc, shim_dir, build_shims, workdir, ncpu, only_ub=False):
+def run_lane(tier, inc, shim_dir, build_shims, workdir, ncpu, only_ub=False, focus=None, prop="C08"):
     """Returns (violation_classes, stats, samples)."""
     th = tier == "thorough"
     stds = ["c++17", "c++20", "c++2b"]
@@ -350,7 +420,7 @@ def run_lane(tier, inc, shim_dir, build_shims, workdir, ncpu, only_ub=False):
     for (c, s, a) in tus:
         name = f"{c}-O0-{s}-{a}"
         rt = rts[name]
-        cases = gen_cases(tier, bool(rt.cx))
+        cases = gen_cases(tier, bool(rt.cx), focus)
         # run-time values first (also decides the language-rule exclusions)
         kept = []
         for cs in cases:
@@ -373,12 +443,15 @@ def run_lane(tier, inc, shim_dir, build_shims, workdir, ncpu, only_ub=False):
             reasons = rej.pop("_reasons", [])
             for i, (cs, rtv, other) in enumerate(chunk):
                 stats["consteval.lines"] += 1
+                if i in rej and cs.optional:
+                    stats["consteval.not_constexpr_by_design"] = stats.get("consteval.not_constexpr_by_design", 0) + 1
+                    continue
                 if i in rej:
                     stats["consteval.rejected"] += 1
                     diag = rej[i] + " || " + " ; ".join(reasons[:3])
                     if only_ub and not UB_PAT.search(diag):
                         continue
-                    cl = ("C07.consteval_ub." if only_ub else "C08.consteval_rejected.") + cs.entry
+                    cl = ("C07.consteval_ub." if only_ub else prop + ".consteval_rejected.") + cs.entry
                     e = classes.setdefault(cl, {"class": cl, "count": 0, "examples": []})
                     e["count"] += 1
                     if len(e["examples"]) < 3:
@@ -394,7 +467,7 @@ def run_lane(tier, inc, shim_dir, build_shims, workdir, ncpu, only_ub=False):
                 stats["consteval.compared_with_run_time"] += 1
                 same = v == rtv
                 if not same:
-                    cl = "C08.consteval_value_differs." + cs.entry
+                    cl = prop + ".consteval_value_differs." + cs.entry
                     e = classes.setdefault(cl, {"class": cl, "count": 0, "examples": []})
                     e["count"] += 1
                     if len(e["examples"]) < 3:
